@@ -598,6 +598,11 @@ func (w *World) processRepoPackageOnce(p *packages.Package, imp types.Importer, 
 			continue
 		}
 		fd := decls[c.Func]
+		if fd == nil && w.isIfaceMethod(p, c.Func) {
+			// contract on an interface method: carries options only (pure), no predicates
+			c.Options["trusted"] = true
+			continue
+		}
 		if fd == nil {
 			return c.id(), fmt.Sprintf("the contract names function %q which does not exist in package %s", c.Func, p.PkgPath), nil
 		}
@@ -1187,4 +1192,29 @@ func (w *World) findCalleeSig(p *packages.Package, name string) *types.Signature
 		return f.Type().(*types.Signature)
 	}
 	return nil
+}
+
+// isIfaceMethod: name has the form "(I).M" where I is an interface type of p with method M.
+func (w *World) isIfaceMethod(p *packages.Package, name string) bool {
+	if !strings.HasPrefix(name, "(") {
+		return false
+	}
+	i := strings.Index(name, ").")
+	if i < 0 {
+		return false
+	}
+	tn, ok := p.Types.Scope().Lookup(name[1:i]).(*types.TypeName)
+	if !ok {
+		return false
+	}
+	it, ok := tn.Type().Underlying().(*types.Interface)
+	if !ok {
+		return false
+	}
+	for k := 0; k < it.NumMethods(); k++ {
+		if it.Method(k).Name() == name[i+2:] {
+			return true
+		}
+	}
+	return false
 }
